@@ -1,0 +1,412 @@
+//go:build verif
+
+package scheduler
+
+import (
+	"fmt"
+	"sort"
+
+	remoteexecution "github.com/bazelbuild/remote-apis/build/bazel/remote/execution/v2"
+)
+
+// VerifCounts is a summary of the objects currently retained by an
+// InMemoryBuildQueue. It is only used by external verification
+// harnesses.
+type VerifCounts struct {
+	PlatformQueues           int
+	SizeClassQueues          int
+	RemovableSizeClassQueues int
+	Operations               int
+	InFlightTasks            int
+	LiveTasks                int
+	NonRootInvocations       int
+	Workers                  int
+	ParkedWorkers            int
+	ExecutingWorkers         int
+	QueuedOperations         int
+	PendingCleanups          int
+	Drains                   int
+}
+
+// VerifLockIsFree reports whether the lock of the build queue can be
+// acquired right now.
+func (bq *InMemoryBuildQueue) VerifLockIsFree() bool {
+	if bq.lock.TryLock() {
+		bq.lock.Unlock()
+		return true
+	}
+	return false
+}
+
+// VerifCheckInvariants walks all data structures of the build queue
+// while holding its lock and returns object counts together with a
+// list of violated structural invariants. It does not modify any
+// state (in particular it does not run the cleanup queue).
+func (bq *InMemoryBuildQueue) VerifCheckInvariants() (VerifCounts, []string) {
+	bq.lock.Lock()
+	defer bq.lock.Unlock()
+
+	var c VerifCounts
+	var problems []string
+	bad := func(format string, args ...interface{}) {
+		if len(problems) < 50 {
+			problems = append(problems, fmt.Sprintf(format, args...))
+		}
+	}
+
+	c.PlatformQueues = len(bq.platformQueues)
+	c.SizeClassQueues = len(bq.sizeClassQueues)
+	c.Operations = len(bq.operationsNameMap)
+	c.InFlightTasks = len(bq.inFlightDeduplicationMap)
+	c.PendingCleanups = len(bq.cleanupQueue.heap)
+
+	// Cleanup heap: keys must mirror indices, heap order must hold.
+	for idx, e := range bq.cleanupQueue.heap {
+		if e.key == nil || *e.key != cleanupKey(idx+1) {
+			bad("cleanup heap entry %d has a key that does not refer to it", idx)
+		}
+		if idx > 0 {
+			parent := (idx - 1) / 2
+			if e.timestamp.Before(bq.cleanupQueue.heap[parent].timestamp) {
+				bad("cleanup heap order violated at index %d", idx)
+			}
+		}
+	}
+
+	// Platform queues, trie and size class queues must agree.
+	scqSeen := map[*sizeClassQueue]bool{}
+	for idx, pq := range bq.platformQueues {
+		if got := bq.platformQueuesTrie.GetExact(pq.platformKey); got != idx {
+			bad("platform queue %d (%s %s) is registered in the trie at index %d", idx, pq.platformKey.GetInstanceNamePrefix().String(), pq.platformKey.GetPlatformString(), got)
+		}
+		if len(pq.sizeClasses) != len(pq.sizeClassQueues) || len(pq.sizeClasses) == 0 {
+			bad("platform queue %d has %d size classes and %d size class queues", idx, len(pq.sizeClasses), len(pq.sizeClassQueues))
+			continue
+		}
+		for j, scq := range pq.sizeClassQueues {
+			if j > 0 && pq.sizeClasses[j-1] >= pq.sizeClasses[j] {
+				bad("platform queue %d has unsorted size classes", idx)
+			}
+			if scq.platformQueue != pq || scq.sizeClass != pq.sizeClasses[j] {
+				bad("size class queue %d/%d has inconsistent back references", idx, j)
+			}
+			if bq.sizeClassQueues[scq.getKey()] != scq {
+				bad("size class queue %d/%d is not registered under its key", idx, j)
+			}
+			scqSeen[scq] = true
+		}
+	}
+	for _, scq := range bq.sizeClassQueues {
+		if !scqSeen[scq] {
+			bad("size class queue %d is registered but not part of any platform queue", scq.sizeClass)
+		}
+	}
+
+	// Tasks are discovered through operations, workers and the
+	// in-flight deduplication map.
+	type taskInfo struct {
+		heapEntries int
+		workers     int
+	}
+	tasks := map[*task]*taskInfo{}
+	getTask := func(t *task) *taskInfo {
+		ti, ok := tasks[t]
+		if !ok {
+			ti = &taskInfo{}
+			tasks[t] = ti
+		}
+		return ti
+	}
+	opsInHeaps := map[*operation]int{}
+
+	// Walk every invocation tree.
+	for _, scq := range bq.sizeClassQueues {
+		if scq.mayBeRemoved {
+			c.RemovableSizeClassQueues++
+		}
+		c.Drains += len(scq.drains)
+		parked := map[*worker]int{}
+		execMultiset := map[*invocation]map[*worker]int{}
+		idleCounts := map[*invocation]uint32{}
+
+		var walk func(i *invocation, depth int)
+		walk = func(i *invocation, depth int) {
+			if i.sizeClassQueue != scq {
+				bad("invocation at depth %d refers to another size class queue", depth)
+			}
+			if len(i.invocationKeys) != depth {
+				bad("invocation at depth %d has %d keys", depth, len(i.invocationKeys))
+			}
+			if depth > 0 {
+				c.NonRootInvocations++
+				if !i.isActive() && i.idleWorkersCount == 0 {
+					bad("empty invocation at depth %d is still registered", depth)
+				}
+			}
+			// Queued operations heap.
+			for idx, o := range i.queuedOperations {
+				opsInHeaps[o]++
+				c.QueuedOperations++
+				if o.queueIndex != idx {
+					bad("queued operation %s has queueIndex %d, but is stored at %d", o.name, o.queueIndex, idx)
+				}
+				if o.invocation != i {
+					bad("queued operation %s is stored in an invocation other than its own", o.name)
+				}
+				if idx > 0 && i.queuedOperations.Less(idx, (idx-1)/2) {
+					bad("queuedOperations heap order violated at index %d (depth %d)", idx, depth)
+				}
+				getTask(o.task).heapEntries++
+			}
+			// Queued children heap must contain exactly the
+			// children that are queued.
+			inQueuedChildren := map[*invocation]bool{}
+			for idx, ic := range i.queuedChildren {
+				inQueuedChildren[ic] = true
+				if ic.queuedChildrenIndex != idx {
+					bad("queued child has queuedChildrenIndex %d, but is stored at %d", ic.queuedChildrenIndex, idx)
+				}
+				if ic.parent != i {
+					bad("queuedChildren contains an invocation with another parent")
+				}
+				if idx > 0 && i.queuedChildren.Less(idx, (idx-1)/2) {
+					bad("queuedChildren heap order violated at index %d (depth %d)", idx, depth)
+				}
+			}
+			inIdleChildren := map[*invocation]bool{}
+			for idx, ic := range i.idleSynchronizingWorkersChildren {
+				inIdleChildren[ic] = true
+				if ic.idleSynchronizingWorkersChildrenIndex != idx {
+					bad("idle synchronizing child has index %d, but is stored at %d", ic.idleSynchronizingWorkersChildrenIndex, idx)
+				}
+				if ic.parent != i {
+					bad("idleSynchronizingWorkersChildren contains an invocation with another parent")
+				}
+				if idx > 0 && i.idleSynchronizingWorkersChildren.Less(idx, (idx-1)/2) {
+					bad("idleSynchronizingWorkersChildren heap order violated at index %d (depth %d)", idx, depth)
+				}
+			}
+			for key, ic := range i.children {
+				if ic.parent != i {
+					bad("child invocation has wrong parent pointer")
+				}
+				if n := len(ic.invocationKeys); n == 0 || ic.invocationKeys[n-1] != key {
+					bad("child invocation is registered under a key other than its own")
+				}
+				if ic.isQueued() != inQueuedChildren[ic] {
+					bad("child invocation isQueued=%v but queuedChildren membership=%v (depth %d)", ic.isQueued(), inQueuedChildren[ic], depth+1)
+				}
+				if !inQueuedChildren[ic] && ic.queuedChildrenIndex != -1 {
+					bad("child invocation outside queuedChildren has index %d", ic.queuedChildrenIndex)
+				}
+				hasIdle := len(ic.idleSynchronizingWorkers) > 0 || ic.idleSynchronizingWorkersChildren.Len() > 0
+				if hasIdle != inIdleChildren[ic] {
+					bad("child invocation hasIdleSynchronizingWorkers=%v but heap membership=%v", hasIdle, inIdleChildren[ic])
+				}
+				if !inIdleChildren[ic] && ic.idleSynchronizingWorkersChildrenIndex != -1 {
+					bad("child invocation outside idleSynchronizingWorkersChildren has index %d", ic.idleSynchronizingWorkersChildrenIndex)
+				}
+				walk(ic, depth+1)
+			}
+			// Idle synchronizing workers.
+			for idx, entry := range i.idleSynchronizingWorkers {
+				w := entry.worker
+				parked[w]++
+				if w.listIndex != idx || entry.listIndex != &w.listIndex {
+					bad("parked worker %s has listIndex %d, but is stored at %d", w.workerKey, w.listIndex, idx)
+				}
+				if w.lastInvocation != i {
+					bad("parked worker %s is stored in an invocation other than its last invocation", w.workerKey)
+				}
+				if w.wakeup == nil {
+					bad("parked worker %s has no wakeup channel", w.workerKey)
+				}
+				if w.currentTask != nil {
+					bad("parked worker %s has a task assigned", w.workerKey)
+				}
+			}
+			execMultiset[i] = map[*worker]int{}
+			for w, n := range i.executingWorkers {
+				if n <= 0 {
+					bad("invocation has a non-positive executing count for worker %s", w.workerKey)
+				}
+				execMultiset[i][w] = n
+			}
+			idleCounts[i] = 0
+		}
+		walk(&scq.rootInvocation, 0)
+
+		// Workers.
+		for key, w := range scq.workers {
+			c.Workers++
+			if w.workerKey != key {
+				bad("worker %s is registered under key %s", w.workerKey, key)
+			}
+			if (w.wakeup != nil) != (parked[w] == 1) || parked[w] > 1 {
+				bad("worker %s wakeup set=%v but appears %d times in idle lists", key, w.wakeup != nil, parked[w])
+			}
+			if w.wakeup == nil && w.listIndex != -1 {
+				bad("worker %s is not parked but has listIndex %d", key, w.listIndex)
+			}
+			if w.wakeup != nil {
+				c.ParkedWorkers++
+			}
+			if t := w.currentTask; t != nil {
+				c.ExecutingWorkers++
+				getTask(t).workers++
+				if t.currentWorker != w {
+					bad("worker %s executes a task whose currentWorker is another worker", key)
+				}
+				if w.lastInvocation != nil {
+					bad("executing worker %s has a last invocation", key)
+				}
+				if t.executeResponse != nil {
+					bad("worker %s is assigned a completed task", key)
+				}
+				// Expected contribution to executingWorkers.
+				for i := range t.operations {
+					for j := i; j != nil; j = j.parent {
+						if m, ok := execMultiset[j]; ok {
+							m[w]--
+						} else {
+							bad("task of worker %s has an operation in an unregistered invocation", key)
+						}
+					}
+				}
+			} else {
+				if w.lastInvocation == nil {
+					bad("idle worker %s has no last invocation", key)
+				} else {
+					for j := w.lastInvocation; j != nil; j = j.parent {
+						if _, ok := idleCounts[j]; ok {
+							idleCounts[j]++
+						} else {
+							bad("idle worker %s refers to an unregistered last invocation", key)
+							break
+						}
+					}
+				}
+			}
+		}
+		for w := range parked {
+			if scq.workers[w.workerKey] != w {
+				bad("parked worker %s is not registered in its size class queue", w.workerKey)
+			}
+		}
+		for i, m := range execMultiset {
+			for w, n := range m {
+				if n != 0 {
+					bad("executingWorkers of an invocation at depth %d is off by %d for worker %s", len(i.invocationKeys), n, w.workerKey)
+				}
+			}
+		}
+		for i, n := range idleCounts {
+			if i.idleWorkersCount != n {
+				bad("idleWorkersCount at depth %d is %d, expected %d", len(i.invocationKeys), i.idleWorkersCount, n)
+			}
+		}
+	}
+
+	// Operations.
+	for name, o := range bq.operationsNameMap {
+		if o.name != name {
+			bad("operation %s is registered under name %s", o.name, name)
+		}
+		t := o.task
+		getTask(t)
+		if t.operations[o.invocation] != o {
+			bad("operation %s is not registered in its task under its invocation", name)
+		}
+		stage := t.getStage()
+		if (o.queueIndex >= 0) != (stage == remoteexecution.ExecutionStage_QUEUED) {
+			bad("operation %s has queueIndex %d in stage %s", name, o.queueIndex, stage)
+		}
+		if n := opsInHeaps[o]; (stage == remoteexecution.ExecutionStage_QUEUED && n != 1) || (stage != remoteexecution.ExecutionStage_QUEUED && n != 0) {
+			bad("operation %s in stage %s appears in %d queues", name, stage, n)
+		}
+		if o.waiters == 0 && !o.mayExistWithoutWaiters && !o.cleanupKey.isActive() {
+			bad("operation %s has no waiters and no scheduled cleanup", name)
+		}
+		if o.waiters > 0 && o.cleanupKey.isActive() {
+			bad("operation %s has waiters and a scheduled cleanup", name)
+		}
+	}
+	for o := range opsInHeaps {
+		if bq.operationsNameMap[o.name] != o {
+			bad("queued operation %s is not registered by name", o.name)
+		}
+	}
+	for d, t := range bq.inFlightDeduplicationMap {
+		getTask(t)
+		if t.actionDigest != d {
+			bad("in-flight deduplication map entry refers to a task with another digest")
+		}
+		if t.executeResponse != nil {
+			bad("in-flight deduplication map refers to a completed task %s", d)
+		}
+	}
+
+	// Exactly one holder per live task.
+	names := func(t *task) string {
+		var l []string
+		for _, o := range t.operations {
+			l = append(l, o.name)
+		}
+		sort.Strings(l)
+		return fmt.Sprint(l)
+	}
+	for t, ti := range tasks {
+		stage := t.getStage()
+		if stage != remoteexecution.ExecutionStage_COMPLETED {
+			c.LiveTasks++
+			if len(t.operations) == 0 {
+				bad("live task has no operations")
+				continue
+			}
+			var scq *sizeClassQueue
+			for i, o := range t.operations {
+				if scq == nil {
+					scq = i.sizeClassQueue
+				} else if scq != i.sizeClassQueue {
+					bad("task %s has operations in different size class queues", names(t))
+				}
+				if bq.operationsNameMap[o.name] != o {
+					bad("task %s has an operation that is not registered by name", names(t))
+				}
+				if o.invocation != i {
+					bad("task %s maps an invocation to an operation of another invocation", names(t))
+				}
+			}
+			if scq != nil && bq.sizeClassQueues[scq.getKey()] != scq {
+				bad("live task %s lives in a size class queue that is no longer registered", names(t))
+			}
+			if t.stageChangeWakeup == nil {
+				bad("live task %s has no stage change wakeup channel", names(t))
+			}
+			if t.desiredState.Action != nil && !t.desiredState.Action.DoNotCache && bq.inFlightDeduplicationMap[t.actionDigest] != t {
+				bad("live cacheable task %s is not registered in the in-flight deduplication map", names(t))
+			}
+		}
+		switch stage {
+		case remoteexecution.ExecutionStage_QUEUED:
+			if ti.workers != 0 {
+				bad("queued task %s is assigned to %d workers", names(t), ti.workers)
+			}
+			if ti.heapEntries != len(t.operations) {
+				bad("queued task %s has %d operations but %d queue entries", names(t), len(t.operations), ti.heapEntries)
+			}
+		case remoteexecution.ExecutionStage_EXECUTING:
+			if ti.workers != 1 || t.currentWorker.currentTask != t {
+				bad("executing task %s is held by %d registered workers", names(t), ti.workers)
+			}
+			if ti.heapEntries != 0 {
+				bad("executing task %s still has %d queue entries", names(t), ti.heapEntries)
+			}
+		case remoteexecution.ExecutionStage_COMPLETED:
+			if ti.workers != 0 || ti.heapEntries != 0 || t.currentWorker != nil {
+				bad("completed task %s is still held (workers=%d, queue entries=%d)", names(t), ti.workers, ti.heapEntries)
+			}
+		}
+	}
+	return c, problems
+}
